@@ -345,7 +345,7 @@ func seedFromEnv() uint64 {
 }
 
 func runWorkers(bin string, p *propDef, mode, tier string, seed uint64, runs int, maxWall time.Duration, workers int, replay string, extraEnv []string) ([]*WorkerResult, error) {
-	rdir := filepath.Join(buildDir, "run", fmt.Sprintf("%s-%d", p.ID, os.Getpid()))
+	rdir := filepath.Join(buildDir, "run", fmt.Sprintf("%s-%08x", p.ID, uint32(os.Getpid())*2654435761+uint32(time.Now().UnixNano()))) // fixed length: paths travel inside simulated messages
 	os.RemoveAll(rdir)
 	must(os.MkdirAll(rdir, 0o755))
 	defer os.RemoveAll(rdir)
@@ -358,7 +358,7 @@ func runWorkers(bin string, p *propDef, mode, tier string, seed uint64, runs int
 		go func() {
 			defer wg.Done()
 			out := filepath.Join(rdir, fmt.Sprintf("w%d.json", w))
-			scratch := filepath.Join(rdir, fmt.Sprintf("scratch%d", w))
+			scratch := filepath.Join(rdir, fmt.Sprintf("scratch%02d", w))
 			os.MkdirAll(scratch, 0o755)
 			hard := maxWall + 10*time.Minute
 			cmd := exec.Command(bin, "-test.run", "^TestVerif$", "-test.timeout", hard.String(), "-test.count", "1")
